@@ -93,6 +93,26 @@ def gen_cases(ctx):
                         fam = "blocks"
                 # the step-by-step model comparison (drift detail) is expensive in TLC: small grids and a sample
                 yield emit(dm, d, axis, bg, vals, fam, str(j), model=1 if (n <= 25 or j < 3) else 0)
+    # 2b. elongated designs in both orientations (a loop bound that confuses rows and columns only shows on designs
+    #     much wider than tall, and then only in a fraction of them): >= 40 random designs per wide shape and brush
+    wide = [(3, 16), (4, 24), (5, 24), (4, 40)]
+    for dm0 in wide:
+        for transposed in (0, 1):
+            dm = (dm0[1], dm0[0]) if transposed else dm0
+            n = dm[0] * dm[1]
+            per_l = (14 if ctx.quick else 60) if transposed else (40 if ctx.quick else 200)
+            for d in (2, 2.5, 3):
+                gi += 1
+                axis, bg = gi % 3, (gi // 3) % 2
+                for j in range(per_l):
+                    vals = list(range(-(n // 2), n - n // 2))
+                    rng.shuffle(vals)
+                    fam = "wide-perm" if not transposed else "tall-perm"
+                    if j % 2 == 1:
+                        w = dm[1]
+                        vals = [vals[i] + 3 * n * (1 if ((i // w) // 2 + (i % w) // 3 + j) % 2 else -1) for i in range(n)]
+                        fam = fam.replace("perm", "blocks")
+                    yield emit(dm, d, axis, bg, vals, fam, str(j), model=1 if j < 1 else 0)
     # 3. grids smaller than the brush array (convolve2d swaps its operands there)
     for dm, d in (((3, 3), 4), ((4, 4), 5), ((3, 4), 5), ((2, 2), 3), ((2, 2), 2)):
         n = dm[0] * dm[1]
